@@ -371,6 +371,50 @@ def h_input_experiments(mode):
     return fn
 
 
+def h_experiment_names(mode):
+    """three experiments whose names are chosen by the solver (absent, repeated, or looking like the automatic <prefix><index> names):
+    every experiment gets its own output folder"""
+    import io as _io
+    import contextlib
+    import src.input_data_storage as ids
+    NAMES = [None, "S", "OUT1", "OUT2"]
+
+    def fn(g):
+        names = [NAMES[g.choice("experiment%d_name" % i, len(NAMES))] for i in range(3)]
+        entries = []
+        for i, nm in enumerate(names):
+            e = {"long read files": ["/data/e%d.bam" % i]}
+            if nm is not None:
+                e["name"] = nm
+            entries.append(e)
+        listing = "".join("#%s\n%s\n" % (e.get("name", ""), e["long read files"][0]) for e in entries)
+        saved = (ids.yaml, ids.__dict__.get("open"))
+        ids.yaml = Obj(safe_load=lambda f: [{"data format": "bam"}] + [dict(e) for e in entries])
+        ids.open = lambda path, mode_="r": _io.StringIO(listing)
+        try:
+            args = Obj(fastq=None, bam=None, fastq_list=None, bam_list="/in/list.txt" if mode == "list" else None, read_assignments=None,
+                       yaml="/in/data.yaml" if mode == "yaml" else None, labels=None, prefix="OUT", output="/out", illumina_bam=None)
+            import logging
+            logging.disable(logging.CRITICAL)
+            try:
+                with contextlib.redirect_stdout(_io.StringIO()):
+                    samples = call(g, ids.InputDataStorage, args).samples
+            except SystemExit:
+                return              # the description is rejected with an error message: no run, nothing shared
+            finally:
+                logging.disable(logging.NOTSET)
+        finally:
+            ids.yaml = saved[0]
+            if saved[1] is None:
+                ids.__dict__.pop("open", None)
+            else:
+                ids.open = saved[1]
+        dirs = [s_.out_dir for s_ in samples]
+        g.check(len(samples) == 3 and len(set(dirs)) == len(dirs), "every experiment of a run gets its own output folder",
+                detail={"names_given": names, "folders": dirs})
+    return fn
+
+
 def h_combined_table(n_samples):
     """combine_table over n experiments: the per-experiment count files carry SENTINEL numbers (symbolic values rendered as unique
     numerals), pandas merges them as opaque numbers, and the combined table is parsed back: the column of every experiment holds
@@ -434,6 +478,10 @@ def instances(tier, seed):
     for n in ((2, 3) if q else (2, 3, 4)):
         out.append(Instance("combined_table[experiments=%d]" % n, h_combined_table(n), ["src.stats:combine_table", "src.stats:transform_counts"],
                             "%d experiments x 3 features, any subset reported, symbolic counts (sentinel numerals through pandas)" % n, weight=8 ** n, budget_s=900))
+    for mode in ("yaml", "list"):
+        out.append(Instance("experiment_names[%s]" % mode, h_experiment_names(mode),
+                            ["src.input_data_storage:InputDataStorage.__init__", "src.input_data_storage:InputDataStorage.get_samples_from_" + ("yaml" if mode == "yaml" else "file")],
+                            "three experiments, names absent / repeated / equal to an automatic name", weight=20))
     for mode in ("yaml", "list"):
         out.append(Instance("input_experiments[%s]" % mode, h_input_experiments(mode),
                             ["src.input_data_storage:InputDataStorage.__init__", "src.input_data_storage:InputDataStorage.get_samples_from_" + ("yaml" if mode == "yaml" else "file")],
